@@ -831,5 +831,35 @@ impl StrideRounding for Bitvector {
     }
 }
 
+/// Verification hooks (feature `verif_hooks`): construct and inspect interval domains
+/// with arbitrary widening hints. Not part of the regular API.
+#[cfg(feature = "verif_hooks")]
+impl IntervalDomain {
+    /// Build an interval domain directly from its parts without any normalization.
+    pub fn verif_from_parts(
+        interval: Interval,
+        widening_lower_bound: Option<Bitvector>,
+        widening_upper_bound: Option<Bitvector>,
+        widening_delay: u64,
+    ) -> IntervalDomain {
+        IntervalDomain {
+            interval,
+            widening_upper_bound,
+            widening_lower_bound,
+            widening_delay,
+        }
+    }
+
+    /// Return references to the parts `(interval, lower hint, upper hint, delay)` of the domain.
+    pub fn verif_parts(&self) -> (&Interval, &Option<Bitvector>, &Option<Bitvector>, u64) {
+        (
+            &self.interval,
+            &self.widening_lower_bound,
+            &self.widening_upper_bound,
+            self.widening_delay,
+        )
+    }
+}
+
 #[cfg(test)]
 mod tests;
